@@ -25,8 +25,10 @@
 //! backslash, `#`, blanks, empty …; the csv layer is modelled, the model is byte-transparent, non-ASCII is left out
 //! only because truncation could cut a UTF-8 sequence), BED records of one case have the same number of columns,
 //! attribute keys/values are non-empty ASCII, avoid the dialect's delimiters and TAB, do not begin or end with a
-//! quote character, keys do not begin with a blank.  A first column that starts with `#` is generated on purpose
-//! (rarely): the real writer does not quote it and the record is lost (finding `C13-hash-start-record`).
+//! quote character, keys do not begin with a blank.  A first column that starts with `#` and needs no csv quotes is
+//! written as a line that begins with `#`, i.e. a comment line of the format: such a record is outside the domain.
+//! It is generated on purpose, rarely: the driver then only demands that nothing panics and that the records before
+//! it round-trip (tag `hash-start-outside-domain`).
 //! Styles of the harness' own writer: `plain`, `spaced`, `quoted` as before (columns csv-quoted where necessary,
 //! incl. a first column that starts with `#`), `csvq` = every column in csv quotes (`QuoteStyle::Always` look).
 use crate::util::*;
@@ -634,13 +636,13 @@ fn rand_text(rng: &mut Rng, q: bool, allow_empty: bool) -> Vec<u8> {
     }
 }
 
-/// first column: a leading `#` (lost by the real writer/reader pair unless the field has to be quoted anyway) is
+/// first column: a leading `#` that csv does not quote (the written line is a comment line: outside the domain) is
 /// generated only in `q` mode and there only rarely
 fn rand_first_field(rng: &mut Rng, q: bool) -> Vec<u8> {
     loop {
         let f = rand_text(rng, q, true);
         let lost = f.first() == Some(&b'#') && !f.iter().any(|&c| c == b'\t' || c == b'"' || c == b'\r' || c == b'\n');
-        if !lost || (q && rng.chance(1, 6)) {
+        if !lost || (q && rng.chance(1, 8)) {
             return f;
         }
     }
